@@ -275,6 +275,9 @@ func visitInstr(fr *frame, instr ssa.Instruction) continuation {
 			if tryIfConvert(fr, c) {
 				return kJump
 			}
+			if X.DecideProfile != nil {
+				X.DecideProfile[fr.fn.String()]++
+			}
 			taken = X.decide(c.t)
 		}
 		if taken {
